@@ -188,6 +188,42 @@ fn simple_ops(r: &mut Rep) {
 }
 
 
+// ---------------------------------------------------------------------------------------------- placement of sti;hlt
+/// enable_and_hlt inlined at 64 call sites whose code is shifted by 0..63 bytes of padding: whatever the address of the pair
+/// (any offset within a cache line / alignment block), hlt is the very next instruction after sti
+#[inline(never)]
+fn hlt_site<const K: usize>() {
+    unsafe { core::arch::asm!(".p2align 6", ".skip {k}, 0x90", k = const K, options(nomem, nostack, preserves_flags)) };
+    interrupts::enable_and_hlt();
+}
+fn hlt_sites() -> Vec<fn()> {
+    macro_rules! sites { ($($k:literal)*) => { vec![$(hlt_site::<$k> as fn()),*] }; }
+    sites!(0 1 2 3 4 5 6 7 8 9 10 11 12 13 14 15 16 17 18 19 20 21 22 23 24 25 26 27 28 29 30 31 32 33 34 35 36 37 38 39 40 41 42 43 44 45 46 47 48 49 50 51 52 53 54 55 56 57 58 59 60 61 62 63)
+}
+fn hlt_placement(r: &mut Rep) {
+    let c = cpu();
+    let mut residues = std::collections::BTreeSet::new();
+    for (k, f) in hlt_sites().into_iter().enumerate() {
+        c.rflags_sys = 0x2;
+        c.clear_events();
+        let _ = run_stepped(|| f());
+        r.ev(true);
+        let e = &c.events[..c.nev];
+        let ok = e.len() == 2 && e[0].ev == Ev::Sti && e[1].ev == Ev::Hlt && e[1].rip == e[0].rip + e[0].len as u64 && c.rflags_sys == 0x202;
+        if e.len() >= 1 {
+            residues.insert(e[0].rip % 64);
+        }
+        if !ok {
+            r.viol("C17|enable_and_hlt|sti-and-hlt-not-back-to-back-at-some-code-address", &format!("hltsite {}", k), &format!("{:x?}", e.iter().map(|x| (x.ev, x.rip)).collect::<Vec<_>>()));
+        }
+    }
+    r.note(&format!("enable_and_hlt at 64 call sites: sti placed at {} distinct offsets modulo 64", residues.len()));
+    if residues.len() < 64 && residues.len() > 1 {
+        // (a single offset means enable_and_hlt was not inlined — the unoptimised profile — and has one address anyway)
+        r.caps.push(format!("sti;hlt placement: only {} of 64 offsets modulo 64 were reached", residues.len()));
+    }
+}
+
 // ---------------------------------------------------------------------------------------------- leaf-function call sites
 // In optimised builds without_interrupts and its closure are inlined into the caller. If the caller then makes no call at
 // all it is a leaf function and keeps its locals in the red zone below RSP without moving RSP; any stack use inside the
@@ -352,6 +388,8 @@ pub fn run(a: &Args) {
             let mut pos = 0;
             let tree = parse(t[1].as_bytes(), &mut pos);
             program_case(&mut r, &tree, t[2] == "1", u64::from_str_radix(t[3].trim_start_matches("0x"), 16).unwrap());
+        } else if t[0] == "hltsite" {
+            hlt_placement(&mut r);
         } else if t[0] == "repeat" {
             repetition(&mut r);
         } else if t[0] == "leaf" {
@@ -427,6 +465,9 @@ pub fn run(a: &Args) {
     if a.shard == 0 {
         guarded(&mut r, "C17|enable/disable/are_enabled|unexpected-panic", || "flagops".into(), |r| simple_ops(r));
         guarded(&mut r, "C17|without_interrupts|unexpected-panic", || "leaf".into(), |r| leaf_shapes(r));
+    }
+    if a.shard == 2 % a.nshards {
+        guarded(&mut r, "C17|enable_and_hlt|unexpected-panic", || "hltsite".into(), |r| hlt_placement(r));
     }
     if a.shard == 1 % a.nshards {
         guarded(&mut r, "C17|without_interrupts|unexpected-panic", || "repeat".into(), |r| repetition(r));
